@@ -44,13 +44,15 @@ C04x(pre, e) ==
 
 \* C09: LinkedHashSet enumerates in insertion order (Values, iterator, Each, ToJSON)
 C09(pre, e) ==
-  (Completed(e) /\ e.cfg.linked) =>
+  e.cfg.linked =>
+    /\ Completed(e)
     /\ e.post.vals = SetPost(e.cfg, pre.vals, e)
     /\ e.post.iter = e.post.vals /\ e.post.each = e.post.vals /\ e.post.jvals = e.post.vals
 
 \* C02: TreeSet enumerates in strictly ascending comparator order
 C02(pre, e) ==
-  (Completed(e) /\ e.cfg.sorted) =>
+  e.cfg.sorted =>
+    /\ Completed(e)
     /\ Ascending(e.cfg.cmp, e.post.vals)
     /\ e.post.iter = e.post.vals /\ e.post.each = e.post.vals
 
